@@ -47,7 +47,7 @@ func oracle(c Case, o *h.Obs) *h.Fail {
 			o.Class(k)
 		}
 	}
-	for _, k := range []string{"spread_operand_raises", "call_spread_variadic", "script_callback_passed_to_go", "defer_same_statement_different_callees", "deferred_call_assigns_the_returned_list_element", "deferred_call_assigns_the_returned_variable", "body_fails_by_host_panic_and_deferred_call_fails_too", "throw_of_empty_or_nil"} {
+	for _, k := range []string{"spread_operand_raises", "call_spread_variadic", "script_callback_passed_to_go", "defer_same_statement_different_callees", "deferred_call_assigns_the_returned_list_element", "deferred_call_assigns_the_returned_variable", "body_fails_by_host_panic_and_deferred_call_fails_too", "deferred_argument_is_an_element_assigned_later", "throw_of_empty_or_nil"} {
 		if c.GenFeat[k] > 0 {
 			o.Class("gen_" + k)
 		}
